@@ -22,6 +22,16 @@ TT = "vaporetto::tag_trainer::TagTrainer"
 
 def run(chk):
     w = C.world_for(chk)
+    # the model's tag weight tables reach the predictor through the model file: every type of the file must have both codec
+    # sides derived (shared with C07)
+    from . import c07 as _c07
+    chk.rule("R07.3", "derived Encode/Decode symmetry of the model file types (shared with C07)")
+    with chk.only(rules={"R07.3"}, keys=lambda k: "Tag" in k):
+        _c07.r073(chk, w)
+    # this property is stated over tokens: the token iterator and the tokenized writer (all of C02) are part of its mechanism
+    from . import c02 as _c02
+    with chk.only(rules={"R02.1", "R02.2", "R02.4", "R02.5"}):
+        _c02.run(chk)
     for rid, txt in (("R12.1", "distinct tags recorded exactly once with consecutive ids"), ("R12.2", "= R06.2"),
                      ("R12.3", "default tags only for absent tokens"), ("R12.4", "label <-> column agreement of the three stores")):
         chk.rule(rid, txt)
